@@ -35,6 +35,7 @@ impl Default for C09 {
             "faulted_debt_oracle_op_rejected",
             "health_cache_prices_judged",
             "foreign_oracle_account_in_list",
+            "oracle_reconfiguration_judged",
         ]);
         C09 { cov, counter: 0 }
     }
@@ -233,6 +234,19 @@ impl Monitor for C09 {
             let b = states[i + 1];
             if matches!(ix.tag, "borrow" | "withdraw" | "pulse_health") {
                 self.judge_foreign_oracle_accounts(ix, a, b, idx, out);
+            }
+            if ix.tag == "configure_bank_oracle" {
+                // an accepted oracle configuration names an account that really is an oracle of
+                // the configured kind (owner program and layout); freshness is not required
+                if let Some(bank) = ix.accounts.get(2).and_then(|m| model::bank_of(b, &m.pubkey)) {
+                    self.cov.probe("oracle_reconfiguration_judged");
+                    if let Err(e) = refm::read_oracle(b, &bank, s.clock) {
+                        if matches!(e, OracleBad::Missing | OracleBad::WrongOwner | OracleBad::BadData) {
+                            out.push(viol("C09", "oracle_configured_to_unusable_account", ix.tag,
+                                format!("bank {}: {:?} key {} : {e:?}", ix.accounts[2].pubkey, bank.config.oracle_setup, bank.config.oracle_keys[0]), idx));
+                        }
+                    }
+                }
             }
             match ix.tag {
                 "borrow" | "withdraw" => {
